@@ -75,7 +75,11 @@ class Command(Parseable[bytes]):
             raise NotParseable(buf) from exc
         else:
             buf = after
-        cmd, buf = cmd_type.parse(buf, params)
+        try:
+            cmd, buf = cmd_type.parse(buf, params)
+        except ValueError as exc:
+            # e.g. a number with more digits than int() converts
+            raise NotParseable(buf) from exc
         return cmd, buf
 
 
